@@ -374,3 +374,43 @@ def trace_eval(action_seqs, trace_cfg="Store_Trace.cfg", overrides=None, tag="tr
     info = {"events": n, "wall_s": round(time.time() - t0, 1), "rejected": rejected,
             "violated": violated, "log": log, "states": len(steps)}
     return behaviours, info
+
+
+def validate_trace(module, cfg, trace_path, tag="tv", timeout=600):
+    """Validates an implementation trace (NDJSON) against a *_Trace specification.
+    Returns dict: accepted, violated (invariant name or None), rejected_at (text or None),
+    states, events."""
+    metadir = os.path.join(WORK, "tlc_" + tag)
+    shutil.rmtree(metadir, ignore_errors=True)
+    log = os.path.join(WORK, tag + ".log")
+    env = dict(os.environ, TRACE=trace_path,
+               JAVA_TOOL_OPTIONS="-Xss1g -Dtlc2.tool.queue.IStateQueue=StateDeque")
+    cmd = ["timeout", str(timeout), "tlc", "-workers", "1", "-metadir", metadir, "-cleanup",
+           "-noGenerateSpecTE", "-config", cfg, module]
+    t0 = time.time()
+    with open(log, "w") as f:
+        r = subprocess.run(cmd, cwd=SPEC, stdout=f, stderr=subprocess.STDOUT, env=env)
+    shutil.rmtree(metadir, ignore_errors=True)
+    out = open(log, errors="replace").read()
+    if r.returncode == 124:
+        raise ToolError("trace validation timed out (%s)" % log)
+    res = {"accepted": False, "violated": None, "rejected_at": None, "states": 0, "log": log,
+           "events": sum(1 for _ in open(trace_path)), "wall_s": round(time.time() - t0, 1)}
+    m = re.findall(r"(\d+) states generated, (\d+) distinct states found", out)
+    if m:
+        res["states"] = int(m[-1][1])
+    mm = re.search(r"Error: Invariant (\S+) is violated", out)
+    if mm:
+        res["violated"] = mm.group(1)
+        i = out.find("Error: Invariant")
+        res["detail"] = out[i:i + 6000]
+        return res
+    if "Model checking completed. No error has been found." in out:
+        res["accepted"] = True
+        return res
+    i = out.find("TRACE-REJECTED")
+    if i >= 0:
+        res["rejected_at"] = " ".join(out[i:i + 600].split())
+        return res
+    j = out.find("Error")
+    raise ToolError("trace validation failed to run (%s): %s" % (log, out[j:j + 800] if j >= 0 else out[-800:]))
